@@ -68,4 +68,38 @@ theorem tie_skel_queue_consumerIsWorking : Gen.Skel.queue_consumerIsWorking = [
   "return (atomic.LoadUint32(q.workingFlag)) > 0",
   "}"] := by rfl
 
+/-! the creator of a file-backed queue refuses a path that exists (a live queue of another session) -/
+theorem tie_skel_c04_createQueueManager : Gen.Skel.createQueueManager = [
+  "func createQueueManager(shmPath string, queueCap uint32) (*queueManager, error) {",
+  "_ = os.MkdirAll(filepath.Dir(shmPath), os.ModePerm)",
+  "if pathExists(shmPath) {",
+  "return nil, errors.New(\"queue was existed,path\" + shmPath)",
+  "}",
+  "memSize := countQueueMemSize(queueCap) * queueCount",
+  "if !canCreateOnDevShm(uint64(memSize), shmPath) {",
+  "return nil, fmt.Errorf(\"err:%s path:%s, size:%d\", ErrShareMemoryHadNotLeftSpace.Error(), shmPath, memSize)",
+  "}",
+  "f, err := os.OpenFile(shmPath, os.O_CREATE|os.O_RDWR, os.ModePerm)",
+  "if err != nil {",
+  "return nil, err",
+  "}",
+  "defer f.Close()",
+  "if err := f.Truncate(int64(memSize)); err != nil {",
+  "return nil, fmt.Errorf(\"truncate share memory failed,%s\", err.Error())",
+  "}",
+  "mem, err := syscall.Mmap(int(f.Fd()), 0, memSize, syscall.PROT_READ|syscall.PROT_WRITE, syscall.MAP_SHARED)",
+  "if err != nil {",
+  "return nil, err",
+  "}",
+  "for i := 0; i < len(mem); i++ {",
+  "mem[i] = 0",
+  "}",
+  "return &queueManager{",
+  "sendQueue: createQueueFromBytes(mem[:memSize/2], queueCap),",
+  "recvQueue: createQueueFromBytes(mem[memSize/2:], queueCap),",
+  "mem: mem,",
+  "path: shmPath,",
+  "}, nil",
+  "}"] := by rfl
+
 end Tie.C04
